@@ -77,8 +77,9 @@ class Interp:
             return TRUE if l == r == TRUE else UNK
         if k == 'binary' and e['op'] in ('Eq', 'Ne'):
             for a, b in ((e['l'], e['r']), (e['r'], e['l'])):
-                if b['k'] == 'path' and b['p'].get('res') == 'def' and 'Ctor' in b['p'].get('dk', ''):
-                    name = variant_of(b['p'])
+                const = env.get(b['p'].get('hid')) if b['k'] == 'path' and b['p'].get('res') == 'local' else None
+                if (b['k'] == 'path' and b['p'].get('res') == 'def' and 'Ctor' in b['p'].get('dk', '')) or (isinstance(const, tuple) and const[0] == 'CONST'):
+                    name = const[1] if isinstance(const, tuple) else variant_of(b['p'])
                     if self.is_tracked(a, env):
                         base = v.split('[')[0]
                         t = TRUE if base == name and '[' not in v else (UNK if base == name else FALSE)
@@ -104,10 +105,21 @@ class Interp:
         if k in ('mcall', 'call'):
             cid = e.get('mid') if k == 'mcall' else (e['f'].get('id') if e['f'].get('res') == 'def' else None)
             recv = e['recv'] if k == 'mcall' else (e['args'][0] if e['args'] else None)
-            if cid and recv is not None and self.is_tracked(recv, env) and depth < 4:
+            if cid and recv is not None and self.is_tracked(recv, env) and depth < 8:
                 target = self.facts.fns.get(cid)
                 if target is not None and target.hir:
-                    return self.run_pred(target, v, depth + 1)
+                    # further arguments: unit variants of the enum handed to a helper predicate (`self.is_variable_or(Tag::Uri)`)
+                    extra = e['args'] if k == 'mcall' else e['args'][1:]
+                    params = target.hir['params'][1:]
+                    consts = {}
+                    for a, pp in zip(extra, params):
+                        if a['k'] == 'path' and a['p'].get('res') == 'def' and 'Ctor' in a['p'].get('dk', '') and pp['k'] == 'bind':
+                            consts[pp['hid']] = ('CONST', variant_of(a['p']))
+                        else:
+                            return UNK
+                    if len(extra) != len(params):
+                        return UNK
+                    return self.run_pred(target, v, depth + 1, consts)
             return UNK
         if k == 'if':
             c = self.truth(e['cond'], v, env, depth)
@@ -137,8 +149,8 @@ class Interp:
         if k == 'bind' and pat.get('sub'):
             self.bind_payload(pat['sub'], env)
 
-    def run_pred(self, f, v, depth=0):
-        env = {}
+    def run_pred(self, f, v, depth=0, consts=None):
+        env = dict(consts or {})
         self.mark(f.hir['params'][0], env)
         r = self.truth(f.hir['body'], v, env, depth)
         if r == UNK:
